@@ -59,22 +59,29 @@ def Property.primaryKey (p : Property) : Bool :=
 /-- required as declared; a primary key is always required -/
 def Property.effRequired (p : Property) : Bool := p.required || p.primaryKey
 
-/-- whether the compiled field distinguishes "unset" from "zero": only message fields do.
-(`? type` sets `proto3_optional` but the compiler creates no synthetic oneof, so the linked field
-has no presence — recorded as open finding `optional-field-without-presence`; plain scalars and
-arrays never have presence.) -/
-def Property.hasPresence (p : Property) : Bool :=
+/-- whether the compiled field distinguishes "unset" from "zero". Message fields do; plain scalars
+and arrays do not. For `? type` it depends on a fact about the compiler, `optPres`: at the moment
+`proto3_optional` is set without a synthetic oneof, so the linked field has **no** presence
+(`optPres = false`, open finding `optional-field-without-presence`). The harness measures the fact
+on the real compiler and ships it with every op; every theorem holds for both values. -/
+def Property.hasPresence (p : Property) (optPres : Bool) : Bool :=
   match p.schema with
-  | .single s => s.isMessage
+  | .single s => s.isMessage || (optPres && p.explicitlyOptional)
+  | .array _ _ _ => false
+
+/-- what the declaration says: `? type` (explicitlyOptional) makes absence distinguishable -/
+def Property.declaredPresence (p : Property) : Bool :=
+  match p.schema with
+  | .single s => s.isMessage || p.explicitlyOptional
   | .array _ _ _ => false
 
 /-- the meaning of the whole declaration for one candidate field value -/
-def j5Accepts (M : Matcher) (p : Property) (v : FieldVal) : Bool :=
+def j5Accepts (M : Matcher) (optPres : Bool) (p : Property) (v : FieldVal) : Bool :=
   match p.schema, v with
   | .single _, .absent => !p.effRequired
   | .single s, .single x =>
     -- without presence the zero value is "not there"
-    (!p.effRequired || p.hasPresence || !x.isZero) && j5Item M s x
+    (!p.effRequired || p.hasPresence optPres || !x.isZero) && j5Item M s x
   | .array s rules _, .list xs =>
     (!p.effRequired || !xs.isEmpty) &&
     optAll rules (fun r =>
@@ -98,9 +105,9 @@ def Scalar.hasKind : Scalar → Schema → Bool
   | _, _ => false
 
 /-- a message of the compiled type: `.absent` only where the field has presence -/
-def WellTyped (p : Property) (v : FieldVal) : Bool :=
+def WellTyped (optPres : Bool) (p : Property) (v : FieldVal) : Bool :=
   match p.schema, v with
-  | .single _, .absent => p.hasPresence
+  | .single _, .absent => p.hasPresence optPres
   | .single s, .single x => x.hasKind s
   | .array s _ _, .list xs => xs.all (·.hasKind s)
   | _, _ => false
